@@ -177,6 +177,32 @@ func runC08(cx *Ctx, r *Report) {
 			return walks[k]
 		})
 	}
+	// a new batch starts with a clean answer count: wherever the batch counter advances,
+	// BatchResponseCount := 0 executes with it. A count carried over from the previous
+	// batch makes the next batch "complete" after too few answers; the requests still
+	// open are then skipped at expiry and end with neither outcome.
+	{
+		n := 0
+		kc := keyCounter{}
+		for _, name := range sortedKeys(per) {
+			for _, x := range per[name] {
+				if x.ev.Kind != "delta:RequestContext.BatchCounter:+" {
+					continue
+				}
+				n++
+				ok := false
+				for _, y := range per[name] {
+					if y.ev.Kind == "assign:RequestContext.BatchResponseCount" && y.ev.Args[0].LooseString() == "0" && (y.ev.Fr == x.ev.Fr && mutualMust(x.ev.Site, y.ev.Site) || coExecuted(x.ev, y.ev)) {
+						ok = true
+					}
+				}
+				r.check(ok, "batch-start-resets", kc.next(name+"|"+shortFn(x.ev.Fr.Fn)), x.ev.Pos(cx), "BatchCounter++ is accompanied by BatchResponseCount := 0 on every path", "a new batch is started in "+shortFn(x.ev.Fr.Fn)+" (BatchCounter++) without resetting BatchResponseCount on every path: answers counted in the previous batch complete the new one early, and its unanswered requests are neither answered nor expired")
+			}
+		}
+		if n < 2 {
+			r.toolErr("only %d batch starts (BatchCounter++) found (2 functions confirmed)", n)
+		}
+	}
 	r.requireCount("context-authority", 4)
 }
 
